@@ -1,11 +1,19 @@
 import ParryModel.Field
+import ParryModel.Shapes
 import ParryModel.C15.Model
 /-!
 # C15 property theorems (2-D predicates), for every linearly ordered field.
+
+Statements quantify over the model functions of `C15/Model.lean` at the lawful instance `fieldNum K sq`.
+Specification vocabulary defined here: `area2` (twice the signed area), `OnSeg` (closed segment), `locPt` (the point a
+`SegmentPointLocation` denotes), `crossDir` (`(b-a)×(d-c)`), `Crosses`/`crossingNumber` (half-open ray crossing rule).
 -/
 namespace C15
 open Model Model.C15
+
 variable {K : Type} [Field K] [LinearOrder K] [IsStrictOrderedRing K] (sq : K → K)
+
+/-! ## orientation2d -/
 
 /-- twice the signed area of the triangle `(a, b, c)`: `(b - a) × (c - a)`; positive = counter-clockwise -/
 def area2 (a b c : V2 K) : K := (b.x - a.x) * (c.y - a.y) - (b.y - a.y) * (c.x - a.x)
@@ -25,4 +33,419 @@ theorem orientation2d_spec (a b c : V2 K) (eps : K) (he : 0 ≤ eps) :
     rw [abs_le]; intro h; linarith [h.1]
   · refine ⟨iff_of_false (by simp) h1, iff_of_false (by simp) h2, iff_of_true rfl ?_⟩
     rw [abs_le]; push Not at h1 h2; exact ⟨h2, h1⟩
+
+/-! ## segments_intersection2d, non-parallel branch -/
+
+/-- the point denoted by a `SegmentPointLocation` on `[a, b]` (`barycentric_coordinates` applied to `a`, `b`) -/
+def locPt (a b : V2 K) : SegLoc K → V2 K
+  | .onVertex i => if i = 0 then a else b
+  | .onEdge u v => ⟨a.x * u + b.x * v, a.y * u + b.y * v⟩
+
+/-- `p` lies on the closed segment `[a, b]` -/
+def OnSeg (a b p : V2 K) : Prop :=
+  ∃ t : K, 0 ≤ t ∧ t ≤ 1 ∧ p.x = a.x + t * (b.x - a.x) ∧ p.y = a.y + t * (b.y - a.y)
+
+/-- `(b - a) × (d - c)`: zero iff the two lines are parallel -/
+def crossDir (a b c d : V2 K) : K := (b.x - a.x) * (d.y - c.y) - (b.y - a.y) * (d.x - c.x)
+
+theorem segDenom_eq (a b c d : V2 K) :
+    letI := fieldNum K sq
+    segDenom a b c d = - crossDir a b c d := by
+  simp only [segDenom, crossDir]; ring
+
+private theorem locOfParam_spec (a b : V2 K) (s : K) :
+    letI := fieldNum K sq
+    locPt a b (locOfParam s) = ⟨a.x + s * (b.x - a.x), a.y + s * (b.y - a.y)⟩ ∧
+    (locOfParam s = .onVertex 0 ↔ s = 0) ∧ (locOfParam s = .onVertex 1 ↔ s = 1) := by
+  simp only [locOfParam, neq, Bool.and_eq_true, decide_eq_true_eq]
+  by_cases h0 : s = 0
+  · subst h0; simp [locPt]
+  · by_cases h1 : s = 1
+    · subst h1
+      have : ¬ ((1:K) ≤ 0) := not_le.mpr zero_lt_one
+      simp [locPt, this]
+    · have e0 : ¬ (s ≤ 0 ∧ 0 ≤ s) := fun h => h0 (le_antisymm h.1 h.2)
+      have e1 : ¬ (s ≤ 1 ∧ 1 ≤ s) := fun h => h1 (le_antisymm h.1 h.2)
+      simp only [e0, e1, if_false, locPt, h0, h1, reduceCtorEq]
+      refine ⟨?_, by simp, by simp⟩
+      congr 1 <;> ring
+
+/-- parameter of the intersection point on `[a,b]` / on `[c,d]` as computed by the code (`num / denom`) -/
+def sParam (a b c d : V2 K) : K :=
+  (a.x * (d.y - c.y) + c.x * (a.y - d.y) + d.x * (c.y - a.y)) / (- crossDir a b c d)
+def tParam (a b c d : V2 K) : K :=
+  (-(a.x * (c.y - b.y) + b.x * (a.y - c.y) + c.x * (b.y - a.y))) / (- crossDir a b c d)
+
+/-- the code's rejection test `0 > s || s > 1 || 0 > t || t > 1` -/
+def OutOfRange (a b c d : V2 K) : Prop :=
+  sParam a b c d < 0 ∨ 1 < sParam a b c d ∨ tParam a b c d < 0 ∨ 1 < tParam a b c d
+
+private theorem seg_eval (a b c d : V2 K) (eps : K)
+    (h1 : eps ≤ |crossDir a b c d|) (h2 : (1 / 2 ^ 52 : K) < |crossDir a b c d|) :
+    letI := fieldNum K sq
+    (OutOfRange a b c d → segmentsIntersection2d a b c d eps = none) ∧
+    (¬ OutOfRange a b c d → segmentsIntersection2d a b c d eps =
+      some (.point (locOfParam (sParam a b c d)) (locOfParam (tParam a b c d)))) := by
+  have hd := segDenom_eq sq a b c d
+  unfold segmentsIntersection2d OutOfRange
+  simp only [hd, fieldNum_nabs, abs_neg, ulpsEqZero, epsMach, fieldNum_lit]
+  have hl : ((mkRat 1 4503599627370496 : Rat) : K) = 1 / 2 ^ 52 := by norm_num
+  have c1 : ¬ (|crossDir a b c d| < eps) := not_lt.mpr h1
+  have c2 : ¬ ((if 0 < -crossDir a b c d then -crossDir a b c d - 0 else 0 - -crossDir a b c d) ≤ 1 / 2 ^ 52) := by
+    split_ifs with h
+    · rw [sub_zero]; intro h'; have := abs_of_neg (neg_pos.mp h); linarith
+    · rw [zero_sub, neg_neg]; intro h'; have := abs_of_nonneg (neg_nonpos.mp (not_lt.mp h)); linarith
+  simp only [hl, c1, c2, decide_false, Bool.or_false, Bool.false_eq_true, if_false, sParam, tParam,
+    Bool.or_eq_true, decide_eq_true_eq, or_assoc]
+  constructor
+  · intro h; simp only [h, if_true]
+  · intro h; simp only [h, if_false]
+
+omit [LinearOrder K] [IsStrictOrderedRing K] in
+private theorem sParam_mul (a b c d : V2 K) (hD : crossDir a b c d ≠ 0) :
+    sParam a b c d * (-crossDir a b c d) = a.x * (d.y - c.y) + c.x * (a.y - d.y) + d.x * (c.y - a.y) :=
+  div_mul_cancel₀ _ (neg_ne_zero.mpr hD)
+omit [LinearOrder K] [IsStrictOrderedRing K] in
+private theorem tParam_mul (a b c d : V2 K) (hD : crossDir a b c d ≠ 0) :
+    tParam a b c d * (-crossDir a b c d) = -(a.x * (c.y - b.y) + b.x * (a.y - c.y) + c.x * (b.y - a.y)) :=
+  div_mul_cancel₀ _ (neg_ne_zero.mpr hD)
+
+private theorem meet_x (a b c d : V2 K) (hD : crossDir a b c d ≠ 0) :
+    a.x + sParam a b c d * (b.x - a.x) = c.x + tParam a b c d * (d.x - c.x) := by
+  apply mul_right_cancel₀ (neg_ne_zero.mpr hD)
+  have hs := sParam_mul a b c d hD; have ht := tParam_mul a b c d hD
+  unfold crossDir at *
+  linear_combination (b.x - a.x) * hs - (d.x - c.x) * ht
+
+private theorem meet_y (a b c d : V2 K) (hD : crossDir a b c d ≠ 0) :
+    a.y + sParam a b c d * (b.y - a.y) = c.y + tParam a b c d * (d.y - c.y) := by
+  apply mul_right_cancel₀ (neg_ne_zero.mpr hD)
+  have hs := sParam_mul a b c d hD; have ht := tParam_mul a b c d hD
+  unfold crossDir at *
+  linear_combination (b.y - a.y) * hs - (d.y - c.y) * ht
+
+/-- a common point of the two lines has exactly the parameters the code computes -/
+private theorem params_unique (a b c d : V2 K) (hD : crossDir a b c d ≠ 0) (u v : K)
+    (hx : a.x + u * (b.x - a.x) = c.x + v * (d.x - c.x)) (hy : a.y + u * (b.y - a.y) = c.y + v * (d.y - c.y)) :
+    u = sParam a b c d ∧ v = tParam a b c d := by
+  have hn : -crossDir a b c d ≠ 0 := neg_ne_zero.mpr hD
+  unfold sParam tParam
+  constructor
+  · rw [eq_div_iff hn]; unfold crossDir; linear_combination (d.x - c.x) * hy - (d.y - c.y) * hx
+  · rw [eq_div_iff hn]; unfold crossDir; linear_combination (b.x - a.x) * hy - (b.y - a.y) * hx
+
+/-- **C15, segments, non-parallel branch** (`|(b-a)×(d-c)| ≥ eps` and `> f64::EPSILON`, i.e. the code does not take its
+parallel branch), for every input:
+* `None` ⇒ the two closed segments have no common point;
+* `Some(Point{loc1, loc2})` ⇒ the two locations denote the same point, it lies on both segments, it is the *only*
+  common point, and a location is tagged `OnVertex(i)` **iff** the point is exactly that end point;
+* `Segment{..}` is never returned. -/
+theorem segments_nonparallel (a b c d : V2 K) (eps : K)
+    (h1 : eps ≤ |crossDir a b c d|) (h2 : (1 / 2 ^ 52 : K) < |crossDir a b c d|) :
+    letI := fieldNum K sq
+    match segmentsIntersection2d a b c d eps with
+    | none => ∀ p, OnSeg a b p → OnSeg c d p → False
+    | some (.point l1 l2) =>
+        locPt a b l1 = locPt c d l2 ∧ OnSeg a b (locPt a b l1) ∧ OnSeg c d (locPt c d l2) ∧
+        (∀ p, OnSeg a b p → OnSeg c d p → p = locPt a b l1) ∧
+        (l1 = .onVertex 0 ↔ locPt a b l1 = a) ∧ (l1 = .onVertex 1 ↔ locPt a b l1 = b) ∧
+        (l2 = .onVertex 0 ↔ locPt c d l2 = c) ∧ (l2 = .onVertex 1 ↔ locPt c d l2 = d)
+    | some (.segment ..) => False := by
+  have hpos : (0 : K) < 1 / 2 ^ 52 := by positivity
+  have hD : crossDir a b c d ≠ 0 := fun h => by rw [h, abs_zero] at h2; linarith
+  obtain ⟨hnone, hsome⟩ := seg_eval sq a b c d eps h1 h2
+  by_cases hr : OutOfRange a b c d
+  · rw [hnone hr]
+    rintro p ⟨u, hu0, hu1, hpx, hpy⟩ ⟨v, hv0, hv1, hqx, hqy⟩
+    obtain ⟨rfl, rfl⟩ := params_unique a b c d hD u v (hpx.symm.trans hqx) (hpy.symm.trans hqy)
+    rcases hr with h | h | h | h <;> linarith
+  · rw [hsome hr]
+    simp only [OutOfRange, not_or, not_lt] at hr
+    obtain ⟨hs0, hs1, ht0, ht1⟩ := hr
+    obtain ⟨e1, v10, v11⟩ := locOfParam_spec sq a b (sParam a b c d)
+    obtain ⟨e2, v20, v21⟩ := locOfParam_spec sq c d (tParam a b c d)
+    have hab : ¬ (b.x - a.x = 0 ∧ b.y - a.y = 0) := fun h => hD (by unfold crossDir; rw [h.1, h.2]; ring)
+    have hcd : ¬ (d.x - c.x = 0 ∧ d.y - c.y = 0) := fun h => hD (by unfold crossDir; rw [h.1, h.2]; ring)
+    -- `a + s (b - a) = a ↔ s = 0`, `= b ↔ s = 1`
+    have key : ∀ (p q : V2 K) (s : K), ¬ (q.x - p.x = 0 ∧ q.y - p.y = 0) →
+        (((⟨p.x + s * (q.x - p.x), p.y + s * (q.y - p.y)⟩ : V2 K) = p ↔ s = 0) ∧
+         ((⟨p.x + s * (q.x - p.x), p.y + s * (q.y - p.y)⟩ : V2 K) = q ↔ s = 1)) := by
+      intro p q s hpq
+      obtain ⟨px, py⟩ := p; obtain ⟨qx, qy⟩ := q
+      simp only [V2.mk.injEq] at hpq ⊢
+      constructor
+      · constructor
+        · rintro ⟨hx, hy⟩
+          by_contra hs
+          exact hpq ⟨by have : s * (qx - px) = 0 := by linarith
+                        exact (mul_eq_zero.mp this).resolve_left hs,
+                     by have : s * (qy - py) = 0 := by linarith
+                        exact (mul_eq_zero.mp this).resolve_left hs⟩
+        · rintro rfl; constructor <;> ring
+      · constructor
+        · rintro ⟨hx, hy⟩
+          by_contra hs
+          have hs' : s - 1 ≠ 0 := sub_ne_zero.mpr hs
+          exact hpq ⟨by have : (s - 1) * (qx - px) = 0 := by linarith
+                        exact (mul_eq_zero.mp this).resolve_left hs',
+                     by have : (s - 1) * (qy - py) = 0 := by linarith
+                        exact (mul_eq_zero.mp this).resolve_left hs'⟩
+        · rintro rfl; constructor <;> ring
+    refine ⟨?_, ?_, ?_, ?_, ?_, ?_, ?_, ?_⟩
+    · rw [e1, e2, meet_x a b c d hD, meet_y a b c d hD]
+    · rw [e1]; exact ⟨sParam a b c d, hs0, hs1, rfl, rfl⟩
+    · rw [e2]; exact ⟨tParam a b c d, ht0, ht1, rfl, rfl⟩
+    · rintro ⟨px, py⟩ ⟨u, hu0, hu1, hpx, hpy⟩ ⟨v, hv0, hv1, hqx, hqy⟩
+      obtain ⟨rfl, rfl⟩ := params_unique a b c d hD u v (hpx.symm.trans hqx) (hpy.symm.trans hqy)
+      rw [e1]; simp only at hpx hpy; rw [hpx, hpy]
+    · rw [e1, v10]; exact ((key a b _ hab).1).symm
+    · rw [e1, v11]; exact ((key a b _ hab).2).symm
+    · rw [e2, v20]; exact ((key c d _ hcd).1).symm
+    · rw [e2, v21]; exact ((key c d _ hcd).2).symm
+
+/-- non-vacuity: the hypotheses hold for the crossing (0,0)-(1,0) × (1/2,1/4)-(1/2,-1/4) (the defect witness), eps = 0 -/
+example : (0 : ℚ) ≤ |crossDir (⟨0, 0⟩ : V2 ℚ) ⟨1, 0⟩ ⟨1/2, 1/4⟩ ⟨1/2, -1/4⟩| ∧
+    (1 / 2 ^ 52 : ℚ) < |crossDir (⟨0, 0⟩ : V2 ℚ) ⟨1, 0⟩ ⟨1/2, 1/4⟩ ⟨1/2, -1/4⟩| := by
+  unfold crossDir; norm_num [abs_of_neg]
+
+/-- the corrected model on the defect witness: both locations are the edge midpoints -/
+example : @segmentsIntersection2d ℚ (fieldNum ℚ id) ⟨0, 0⟩ ⟨1, 0⟩ ⟨1/2, 1/4⟩ ⟨1/2, -1/4⟩ 0 =
+    some (.point (.onEdge (1/2) (1/2)) (.onEdge (1/2) (1/2))) := by
+  simp [segmentsIntersection2d, segDenom, ulpsEqZero, epsMach, locOfParam, neq, nabs, lit, fieldNum_ofRat]
+  norm_num
+
+/-- the location rule of the **pinned tree** (`s == denom` where `s == 1.0` is meant) -/
+def locOfParamPinned (s denom : K) : SegLoc K :=
+  if s = 0 then .onVertex 0 else if s = denom then .onVertex 1 else .onEdge (1 - s) s
+
+/-- **refutation of the pinned rule**: for (0,0)-(1,0) × (1/2,1/4)-(1/2,-1/4) one has `s = denom = 1/2`, and the pinned rule
+denotes the end point `b = (1,0)` although the intersection is `(1/2, 0)`. -/
+theorem pinned_onvertex_rule_refuted :
+    sParam (⟨0, 0⟩ : V2 ℚ) ⟨1, 0⟩ ⟨1/2, 1/4⟩ ⟨1/2, -1/4⟩ = 1/2 ∧
+    - crossDir (⟨0, 0⟩ : V2 ℚ) ⟨1, 0⟩ ⟨1/2, 1/4⟩ ⟨1/2, -1/4⟩ = 1/2 ∧
+    locPt (⟨0, 0⟩ : V2 ℚ) ⟨1, 0⟩ (locOfParamPinned (1/2) (1/2)) = ⟨1, 0⟩ := by
+  refine ⟨by unfold sParam crossDir; norm_num, by unfold crossDir; norm_num, ?_⟩
+  simp [locOfParamPinned, locPt]
+
+/-! ## point_in_convex_poly2d -/
+
+
+theorem edgePerp_eq (pt : V2 K) (e : V2 K × V2 K) :
+    letI := fieldNum K sq
+    edgePerp pt e = - area2 e.1 e.2 pt := by
+  simp only [edgePerp, V2.sub, V2.perp, area2]; ring
+
+private theorem convexLoop_spec (pt : V2 K) (es : List (V2 K × V2 K)) (sign : K) :
+    letI := fieldNum K sq
+    convexLoop pt es sign = true ↔
+      ((0 ≤ sign ∧ ∀ e ∈ es, 0 ≤ edgePerp pt e) ∨ (sign ≤ 0 ∧ ∀ e ∈ es, edgePerp pt e ≤ 0)) := by
+  induction es generalizing sign with
+  | nil => simp [convexLoop, le_total]
+  | cons e es ih =>
+    unfold convexLoop
+    simp only [neq, Bool.and_eq_true, decide_eq_true_eq, List.forall_mem_cons]
+    by_cases h0 : sign ≤ 0 ∧ 0 ≤ sign
+    · have : sign = 0 := le_antisymm h0.1 h0.2
+      subst this
+      rw [if_pos h0, ih]
+      simp
+    · rw [if_neg h0]
+      have hne : sign ≠ 0 := fun h => h0 (by rw [h]; exact ⟨le_refl _, le_refl _⟩)
+      by_cases hm : sign * @edgePerp K (fieldNum K sq) pt e < 0
+      · rw [if_pos hm]
+        simp only [Bool.false_eq_true, false_iff, not_or, not_and]
+        constructor
+        · intro hs hp; exact absurd (mul_nonneg hs hp) (not_le.mpr hm)
+        · intro hs hp; exact absurd (mul_nonneg_of_nonpos_of_nonpos hs hp) (not_le.mpr hm)
+      · rw [if_neg hm, ih]
+        push Not at hm
+        constructor
+        · rintro (⟨hs, hes⟩ | ⟨hs, hes⟩)
+          · left; refine ⟨hs, ?_, hes⟩
+            have hs' : 0 < sign := lt_of_le_of_ne hs (Ne.symm hne)
+            by_contra hc; push Not at hc
+            linarith [mul_neg_of_pos_of_neg hs' hc]
+          · right; refine ⟨hs, ?_, hes⟩
+            have hs' : sign < 0 := lt_of_le_of_ne hs hne
+            by_contra hc; push Not at hc
+            linarith [mul_neg_of_neg_of_pos hs' hc]
+        · rintro (⟨hs, _, hes⟩ | ⟨hs, _, hes⟩)
+          · exact Or.inl ⟨hs, hes⟩
+          · exact Or.inr ⟨hs, hes⟩
+
+/-- **C15, convex polygon**: `point_in_convex_poly2d(pt, poly)` is true iff the polygon is non-empty and `pt` lies in the
+closed *left* half-plane of every directed edge (counter-clockwise polygon) or in the closed *right* half-plane of every
+directed edge (clockwise polygon).  `area2 a b pt ≥ 0` ⇔ `pt` is on or to the left of the line `a → b`. -/
+theorem point_in_convex_poly2d_iff (pt : V2 K) (poly : List (V2 K)) :
+    letI := fieldNum K sq
+    pointInConvexPoly2d pt poly = true ↔
+      poly ≠ [] ∧ ((∀ e ∈ polyEdges poly, 0 ≤ area2 e.1 e.2 pt) ∨ (∀ e ∈ polyEdges poly, area2 e.1 e.2 pt ≤ 0)) := by
+  unfold pointInConvexPoly2d
+  cases poly with
+  | nil => simp
+  | cons p ps =>
+    simp only [List.isEmpty_cons, Bool.false_eq_true, if_false, ne_eq, reduceCtorEq, not_false_eq_true, true_and]
+    rw [convexLoop_spec]
+    simp only [le_refl, true_and, edgePerp_eq, neg_nonneg, neg_nonpos]
+    exact or_comm
+
+/-! ## point_in_poly2d -/
+
+/-- the open horizontal ray from `pt` towards `+x` crosses the edge `(a, b)` under the **half-open rule**:
+exactly one end point is at or below the ray (`y ≤ pt.y`), the other strictly above, and the edge's point at height
+`pt.y` lies strictly to the right of `pt`. -/
+def Crosses (pt a b : V2 K) : Prop :=
+  ((a.y ≤ pt.y ∧ pt.y < b.y) ∨ (b.y ≤ pt.y ∧ pt.y < a.y)) ∧
+    pt.x < a.x + (pt.y - a.y) * (b.x - a.x) / (b.y - a.y)
+
+instance (pt a b : V2 K) : Decidable (Crosses pt a b) := by unfold Crosses; infer_instance
+
+/-- crossing number of the ray with the closed polygon -/
+def crossingNumber (pt : V2 K) (poly : List (V2 K)) : Nat :=
+  (polyEdges poly).countP fun e => decide (Crosses pt e.1 e.2)
+
+private theorem windingStep_eq (pt : V2 K) (e : V2 K × V2 K) :
+    letI := fieldNum K sq
+    windingStep pt e = if Crosses pt e.1 e.2 then 1 else 0 := by
+  obtain ⟨a, b⟩ := e
+  simp only [windingStep, V2.sub, V2.perp, Crosses, sub_nonneg]
+  by_cases h1 : a.y ≤ pt.y <;> by_cases h2 : pt.y < b.y <;> simp only [h1, h2, decide_true, decide_false]
+  · -- upward edge
+    have hh : 0 < b.y - a.y := by linarith
+    have : ((pt.x - a.x) * (b.y - a.y) - (pt.y - a.y) * (b.x - a.x) < 0) ↔
+        pt.x < a.x + (pt.y - a.y) * (b.x - a.x) / (b.y - a.y) := by
+      rw [← sub_lt_iff_lt_add', lt_div_iff₀ hh]; constructor <;> intro h <;> linarith
+    simp only [this, true_and, and_self, true_or]
+  · have : ¬ (pt.y < a.y) := not_lt.mpr h1
+    simp [this]
+  · have : ¬ (b.y ≤ pt.y) := not_le.mpr h2
+    simp [this]
+  · -- downward edge
+    push Not at h1 h2
+    have hh : b.y - a.y < 0 := by linarith
+    have : (0 < (pt.x - a.x) * (b.y - a.y) - (pt.y - a.y) * (b.x - a.x)) ↔
+        pt.x < a.x + (pt.y - a.y) * (b.x - a.x) / (b.y - a.y) := by
+      rw [← sub_lt_iff_lt_add', lt_div_iff_of_neg hh]; constructor <;> intro h <;> linarith
+    have n1 : ¬ (a.y ≤ pt.y) := not_le.mpr h1
+    simp only [this, n1, h2, h1, false_and, true_and, and_self, false_or]
+
+private theorem windingCount_eq (pt : V2 K) (es : List (V2 K × V2 K)) :
+    letI := fieldNum K sq
+    windingCount pt es = es.countP fun e => decide (Crosses pt e.1 e.2) := by
+  unfold windingCount
+  suffices h : ∀ (n : Nat), es.foldl (fun w e => w + @windingStep K (fieldNum K sq) pt e) n =
+      n + es.countP fun e => decide (Crosses pt e.1 e.2) by simpa using h 0
+  induction es with
+  | nil => intro n; simp
+  | cons e es ih =>
+    intro n
+    rw [List.foldl_cons, ih, windingStep_eq, List.countP_cons]
+    by_cases h : Crosses pt e.1 e.2 <;> simp [h] <;> omega
+
+/-- **C15, general polygon**: `point_in_poly2d(pt, poly)` is the parity of the crossing number of the `+x` ray from `pt`
+with the closed polygon, edges counted with the half-open rule (`Crosses`). -/
+theorem point_in_poly2d_iff (pt : V2 K) (poly : List (V2 K)) :
+    letI := fieldNum K sq
+    pointInPoly2d pt poly = true ↔ crossingNumber pt poly % 2 = 1 := by
+  unfold pointInPoly2d crossingNumber
+  cases poly with
+  | nil => simp [polyEdges]
+  | cons p ps =>
+    simp only [List.isEmpty_cons, Bool.false_eq_true, if_false, decide_eq_true_eq, windingCount_eq]
+
+/-- the centre of the unit square is inside (crossing number 1) -/
+example : @pointInPoly2d ℚ (fieldNum ℚ id) ⟨1/2, 1/2⟩ [⟨0,0⟩, ⟨1,0⟩, ⟨1,1⟩, ⟨0,1⟩] = true := by
+  rw [point_in_poly2d_iff]
+  simp [crossingNumber, polyEdges, Crosses, List.countP_cons]
+  norm_num
+
+/-! ## corner_direction, is_point_in_triangle -/
+
+
+/-- **corner_direction** is the sign of the signed area of `(p1, p2, p3)`: `Ccw` ⇔ positive (left turn at `p2`),
+`Cw` ⇔ negative, `None` ⇔ collinear; the NaN panic is unreachable in a field. -/
+theorem corner_direction_spec (p1 p2 p3 : V2 K) :
+    letI := fieldNum K sq
+    (cornerDirection p1 p2 p3 = .ccw ↔ 0 < area2 p1 p2 p3) ∧
+    (cornerDirection p1 p2 p3 = .cw ↔ area2 p1 p2 p3 < 0) ∧
+    (cornerDirection p1 p2 p3 = .none ↔ area2 p1 p2 p3 = 0) ∧
+    cornerDirection p1 p2 p3 ≠ .nan := by
+  have hc : @V2.perp K (fieldNum K sq) (@V2.sub K (fieldNum K sq) p1 p2) (@V2.sub K (fieldNum K sq) p3 p2)
+      = - area2 p1 p2 p3 := by simp only [V2.sub, V2.perp, area2]; ring
+  unfold cornerDirection
+  simp only [hc, neq, Bool.and_eq_true, decide_eq_true_eq, neg_neg_iff_pos, neg_pos, neg_nonpos, neg_nonneg]
+  rcases lt_trichotomy (area2 p1 p2 p3) 0 with h | h | h
+  · have n1 : ¬ (0 < area2 p1 p2 p3) := not_lt.mpr h.le
+    have n2 : ¬ (0 ≤ area2 p1 p2 p3 ∧ area2 p1 p2 p3 ≤ 0) := fun hh => absurd hh.1 (not_le.mpr h)
+    simp [n1, n2, h, h.ne]
+  · simp [h]
+  · have n1 : ¬ (area2 p1 p2 p3 < 0) := not_lt.mpr h.le
+    simp [n1, h, h.ne']
+
+/-- evaluation of `is_point_in_triangle` through the three signed areas -/
+private theorem inTri_eval (p v1 v2 v3 : V2 K) :
+    letI := fieldNum K sq
+    isPointInTriangle p v1 v2 v3 =
+      if area2 p v1 v2 = 0 ∧ area2 p v2 v3 = 0 ∧ area2 p v3 v1 = 0 then .invalid
+      else .some (!(decide (area2 p v1 v2 < 0 ∨ area2 p v2 v3 < 0 ∨ area2 p v3 v1 < 0) &&
+                    decide (0 < area2 p v1 v2 ∨ 0 < area2 p v2 v3 ∨ 0 < area2 p v3 v1))) := by
+  obtain ⟨a1, b1, c1, d1⟩ := corner_direction_spec sq p v1 v2
+  obtain ⟨a2, b2, c2, d2⟩ := corner_direction_spec sq p v2 v3
+  obtain ⟨a3, b3, c3, d3⟩ := corner_direction_spec sq p v3 v1
+  unfold isPointInTriangle
+  simp only [a1, b1, c1, d1, a2, b2, c2, d2, a3, b3, c3, d3, or_self, if_false]
+
+/-- **is_point_in_triangle** on a non-degenerate triangle: never `None`, and `Some(true)` exactly for the points of the
+closed triangle (`Triangle2.Mem`: barycentric coordinates all non-negative). -/
+theorem is_point_in_triangle_iff (p v1 v2 v3 : V2 K) (hS : area2 v1 v2 v3 ≠ 0) :
+    letI := fieldNum K sq
+    (isPointInTriangle p v1 v2 v3 = .some true ↔ (Triangle2.mk v1 v2 v3).Mem p) ∧
+    (isPointInTriangle p v1 v2 v3 = .some true ∨ isPointInTriangle p v1 v2 v3 = .some false) := by
+  rw [inTri_eval]
+  set c1 := area2 p v1 v2 with hc1
+  set c2 := area2 p v2 v3 with hc2
+  set c3 := area2 p v3 v1 with hc3
+  have hsum : c1 + c2 + c3 = area2 v1 v2 v3 := by simp only [hc1, hc2, hc3, area2]; ring
+  have hnz : ¬ (c1 = 0 ∧ c2 = 0 ∧ c3 = 0) := fun h => hS (by rw [← hsum, h.1, h.2.1, h.2.2]; ring)
+  rw [if_neg hnz]
+  refine ⟨?_, ?_⟩
+  · simp only [InTri.some.injEq, Bool.not_eq_true', Bool.and_eq_false_iff, decide_eq_false_iff_not, not_or, not_lt]
+    constructor
+    · intro h
+      -- all three areas have the sign of S
+      have hw : 0 ≤ c1 / area2 v1 v2 v3 ∧ 0 ≤ c2 / area2 v1 v2 v3 ∧ 0 ≤ c3 / area2 v1 v2 v3 := by
+        rcases h with ⟨h1, h2, h3⟩ | ⟨h1, h2, h3⟩
+        · have : 0 < area2 v1 v2 v3 := lt_of_le_of_ne (by linarith) (Ne.symm hS)
+          exact ⟨div_nonneg h1 this.le, div_nonneg h2 this.le, div_nonneg h3 this.le⟩
+        · have : area2 v1 v2 v3 < 0 := lt_of_le_of_ne (by linarith) hS
+          exact ⟨div_nonneg_of_nonpos h1 this.le, div_nonneg_of_nonpos h2 this.le, div_nonneg_of_nonpos h3 this.le⟩
+      refine ⟨c3 / area2 v1 v2 v3, c1 / area2 v1 v2 v3, hw.2.2, hw.1, ?_, ?_⟩
+      · have : c3 / area2 v1 v2 v3 + c1 / area2 v1 v2 v3 = 1 - c2 / area2 v1 v2 v3 := by
+          field_simp; linarith
+        linarith [hw.2.1]
+      · obtain ⟨px, py⟩ := p
+        simp only [V2.add, V2.sub, V2.smul, V2.mk.injEq]
+        constructor
+        · field_simp; simp only [hc1, hc3, area2]; ring
+        · field_simp; simp only [hc1, hc3, area2]; ring
+    · rintro ⟨u, v, hu, hv, huv, hp⟩
+      have hpx : p.x = v1.x + (v2.x - v1.x) * u + (v3.x - v1.x) * v := by rw [hp]; rfl
+      have hpy : p.y = v1.y + (v2.y - v1.y) * u + (v3.y - v1.y) * v := by rw [hp]; rfl
+      have e1 : c1 = v * area2 v1 v2 v3 := by
+        simp only [hc1, area2, hpx, hpy]; ring
+      have e3 : c3 = u * area2 v1 v2 v3 := by
+        simp only [hc3, area2, hpx, hpy]; ring
+      have e2 : c2 = (1 - u - v) * area2 v1 v2 v3 := by
+        simp only [hc2, area2, hpx, hpy]; ring
+      rcases lt_or_gt_of_ne hS with hneg | hpos
+      · right; rw [e1, e2, e3]
+        exact ⟨mul_nonpos_of_nonneg_of_nonpos hv hneg.le, mul_nonpos_of_nonneg_of_nonpos (by linarith) hneg.le,
+          mul_nonpos_of_nonneg_of_nonpos hu hneg.le⟩
+      · left; rw [e1, e2, e3]
+        exact ⟨mul_nonneg hv hpos.le, mul_nonneg (by linarith) hpos.le, mul_nonneg hu hpos.le⟩
+  · cases (decide (c1 < 0 ∨ c2 < 0 ∨ c3 < 0) && decide (0 < c1 ∨ 0 < c2 ∨ 0 < c3)) <;> simp
+
+/-- non-vacuity: the unit right triangle is non-degenerate -/
+example : area2 (⟨0, 0⟩ : V2 ℚ) ⟨1, 0⟩ ⟨0, 1⟩ ≠ 0 := by unfold area2; norm_num
+
 end C15
